@@ -662,7 +662,7 @@ def register_subtree(R):
     from pyvc.engine import Unsupported
 
     _SUBTREE_KIT.update(nof=nof, col=col, sel=sel, list_view=list_view, raw_tree=raw_tree, wf_clause=wf_clause, WF=WF, sub_ghost=sub_ghost,
-                        subtree_clause=subtree_clause, rem_member=rem_member, all_cols=all_cols, wf_tree=wf_tree, topo_call=topo_call, Unsupported=Unsupported)
+                        subtree_clause=subtree_clause, rem_member=rem_member, gs_clause=gs_clause, gs_ghost=gs_ghost, GS_POSTS=GS_POSTS, all_cols=all_cols, wf_tree=wf_tree, topo_call=topo_call, Unsupported=Unsupported)
 
 
 # =========================================================================== cut_tree (enter form / leave form / neither)
@@ -1491,3 +1491,88 @@ _reg6f = register
 def register(R):  # noqa: F811
     _reg6f(R)
     register_short_tip(R)
+
+
+# =========================================================================== Tree.get_neurites / Tree.get_dendrites
+def register_neurites(R):
+    from pyvc.values import Obj, fresh
+
+    K = _SUBTREE_KIT
+    nof, col, sel = K["nof"], K["col"], K["sel"]
+    TREE = "swcgeom/core/tree.py"
+
+    def setup(S):
+        return dict(self=K["raw_tree"](S), type_check=S.bool("type_check"))
+
+    def soma_wrong(E, v, o):
+        t = v["self"]
+        return z3.And(to_z3(v["type_check"], "bool"), col(t, "type").get(0).z != t.fields["types"].soma)
+
+    def probe(E, v, o):
+        """ghost exit code: look at an ARBITRARY position of the returned generator (conditions and element expression of the real
+        generator expression evaluated on the item at that position)"""
+        g = v["result"]
+        if not isinstance(g, ext_C06.LazyGen):
+            return
+        j = fresh("int", "position")
+        E.assume(z3.And(j.z >= 0, j.z < g.nz()))
+        item, guard, tree = g.element(E, j)
+        v["__probe__"] = dict(j=j, item=item, guard=guard, tree=tree)
+
+    def post(which, dendrites):
+        def f(E, v, o):
+            g, t = v["result"], o["self"]
+            pr = v.get("__probe__")
+            if not isinstance(g, ext_C06.LazyGen) or pr is None:
+                return False
+            P, n, typ = col(t, "pid").arr, nof(t), col(t, "type").arr
+            m = g.nz()
+            k, k2, r = z3.Int(fresh_name("k")), z3.Int(fresh_name("k2")), z3.Int(fresh_name("r"))
+            at = lambda q: to_z3(g.item(Sym(q, "int")).fields["idx"], "int")  # the row of the source item at position q
+            if which == "source-items-are-the-children-of-the-soma-each-once-in-row-order":
+                flt = getattr(E, "last_filter", None)
+                if flt is None:
+                    return False
+                return z3.And(z3.ForAll([k], z3.Implies(z3.And(k >= 0, k < m), z3.And(at(k) >= 0, at(k) < n, sel(P, at(k)) == 0))),
+                              z3.ForAll([k, k2], z3.Implies(z3.And(0 <= k, k < k2, k2 < m), at(k) < at(k2))),
+                              z3.ForAll([r], z3.Implies(z3.And(r >= 0, r < n, sel(P, r) == 0), z3.And(flt.rho(r) >= 0, flt.rho(r) < m, at(flt.rho(r)) == r))))
+            item, guard, tree = pr["item"], pr["guard"], pr["tree"]
+            if not (isinstance(item, Obj) and item.fields.get("attach") is v["self"]):
+                return False
+            child = to_z3(item.fields["idx"], "int")
+            if which == "a-child-contributes-a-tree-iff-it-is-wanted":
+                ty = t.fields["types"]
+                want = z3.Or(sel(typ, child) == ty.apical_dendrite, sel(typ, child) == ty.basal_dendrite) if dendrites else z3.BoolVal(True)
+                return to_z3(guard, "bool") == want
+            # the tree contributed for the child at this position is the subtree rooted at that child
+            calls = [kw for nm, kw in E.call_log if nm == "get_subtree_impl"]
+            if len(calls) != 1 or not isinstance(tree, Obj) or calls[0]["swc_like"] is not v["self"] or calls[0]["out_mapping"] is not None:
+                return False
+            nd_impl = calls[0]["__result__"][1]
+            rc = K["all_cols"](tree)
+            tup = (rc["id"].nz(), tree.fields["ndata"], tree.fields["source"], tree.fields["names"])
+            if which == "result-shares-no-storage-with-the-input":
+                return all(a.uid not in E.entry_uids for a in rc.values()) and tree.uid not in E.entry_uids
+            return K["gs_clause"](E, which, tup, t, Sym(child, "int"), K["gs_ghost"](E, nd_impl), None)
+
+        return f
+
+    for name, dendrites in (("get_neurites", False), ("get_dendrites", True)):
+        labels = ["source-items-are-the-children-of-the-soma-each-once-in-row-order", "a-child-contributes-a-tree-iff-it-is-wanted"] + \
+                 [w for w in K["GS_POSTS"] if w != "mapping-reported"] + ["result-shares-no-storage-with-the-input"]
+        R.add(f"{TREE}:Tree.{name}", prop="C06", setup=setup,
+              requires=[K["wf_clause"](w, "self") for w in K["WF"]],
+              raises={"ValueError": ("only-when-the-type-check-is-on-and-node-0-is-not-a-soma", soma_wrong)},
+              ghost_exit=probe,
+              ensures=[("a-normal-return-means-the-soma-check-passed-or-was-not-asked-for", lambda E, v, o: z3.Not(soma_wrong(E, o, o)))] + [(("every-dendrite-typed-child-and-no-other-contributes-a-tree" if dendrites else "every-child-contributes-a-tree") if w == "a-child-contributes-a-tree-iff-it-is-wanted" else w, post(w, dendrites)) for w in labels],
+              options=dict(models=ext_C06.MODELS),
+              notes="the result is a generator: it is described by an arbitrary position of its source (the children of node 0 in row order): "
+                    "whether that child contributes, and that its tree is the subtree rooted at it (get_subtree_impl through its proved contract)")
+
+
+_reg6g = register
+
+
+def register(R):  # noqa: F811
+    _reg6g(R)
+    register_neurites(R)
